@@ -49,6 +49,7 @@ import (
 	vaultApp "github.com/oasisprotocol/oasis-core/go/consensus/cometbft/apps/vault"
 	tmbeacon "github.com/oasisprotocol/oasis-core/go/consensus/cometbft/beacon"
 	tmcrypto "github.com/oasisprotocol/oasis-core/go/consensus/cometbft/crypto"
+	"github.com/oasisprotocol/oasis-core/go/common/version"
 	consensusGenesis "github.com/oasisprotocol/oasis-core/go/consensus/genesis"
 	genesis "github.com/oasisprotocol/oasis-core/go/genesis/api"
 	governance "github.com/oasisprotocol/oasis-core/go/governance/api"
@@ -70,12 +71,14 @@ type cnCfg struct {
 	MaxValidators int    `json:"max_validators"`
 	MaxPerEntity  int    `json:"max_per_entity"`
 	ExtraNodes    int    `json:"extra_nodes"`  // entity 0 runs this many additional validator nodes
+	ComputeOnly   int    `json:"compute_only"` // further nodes without the validator role, spread over the entities; not in the genesis: they register once a runtime exists
 	TiedStake     bool   `json:"tied_stake"`   // every validator entity starts with the same escrow
 	TinyStake     bool   `json:"tiny_stake"`   // thresholds of 1-2 base units, escrows at / just below / just above them and around one voting-power unit
 	Debond        int64  `json:"debond"`       // staking DebondingInterval
 	MinTransact   int64  `json:"min_transact"` // staking MinTransactBalance
 	VRF           bool   `json:"vrf"`          // VRF beacon backend (the production one) instead of the insecure test backend
 	VRFThreshold  uint64 `json:"vrf_threshold"`
+	Feature261    bool   `json:"feature_261"` // consensus feature version 26.1 (runtime owner index kept per owner, VRF key change resets election eligibility, ...)
 }
 
 type cnValidator struct {
@@ -177,7 +180,7 @@ func newNet(cfg cnCfg, scratch string) (*cnNet, error) {
 		}
 		return s
 	}
-	nNodes := cfg.Validators + cfg.ExtraNodes
+	nNodes := cfg.Validators + cfg.ExtraNodes + cfg.ComputeOnly
 	for i := 0; i < nNodes; i++ {
 		dir := filepath.Join(scratch, fmt.Sprintf("id-%d", i))
 		if err := os.MkdirAll(dir, 0o700); err != nil {
@@ -194,15 +197,16 @@ func newNet(cfg cnCfg, scratch string) (*cnNet, error) {
 			v.entSigner = mk(signature.SignerEntity)
 			v.ent = &entity.Entity{Versioned: cbor.NewVersioned(entity.LatestDescriptorVersion), ID: v.entSigner.Public()}
 		} else {
-			// extra nodes belong to entity 0
-			v.entSigner, v.ent = n.vals[0].entSigner, n.vals[0].ent
+			// extra nodes belong to entity 0, compute-only nodes to the entities in turn
+			ei := n.entIndex(i)
+			v.entSigner, v.ent = n.vals[ei].entSigner, n.vals[ei].ent
 		}
 		v.ent.Nodes = append(v.ent.Nodes, ident.NodeSigner.Public())
 		v.entAddr = staking.NewAddress(v.ent.ID)
 		v.consPub = tmcrypto.PublicKeyToCometBFT(ptr(ident.ConsensusSigner.Public()))
 		v.consAddr = v.consPub.Address()
 		n.vals = append(n.vals, v)
-		n.names[v.entAddr.String()] = fmt.Sprintf("E%d", min(i, cfg.Validators-1)*btoi(i < cfg.Validators))
+		n.names[v.entAddr.String()] = fmt.Sprintf("E%d", n.entIndex(i))
 		n.names[ident.NodeSigner.Public().String()] = v.name
 		n.names[staking.NewAddress(ident.NodeSigner.Public()).String()] = v.name
 	}
@@ -227,6 +231,28 @@ func newNet(cfg cnCfg, scratch string) (*cnNet, error) {
 		return nil, err
 	}
 	return n, nil
+}
+
+// entIndex is the index of the entity that runs node i.
+func (n *cnNet) entIndex(i int) int {
+	switch {
+	case i < n.cfg.Validators:
+		return i
+	case i < n.cfg.Validators+n.cfg.ExtraNodes:
+		return 0
+	default:
+		return i % n.cfg.Validators
+	}
+}
+
+// computeOnly: node i never carries the validator role.
+func (n *cnNet) computeOnly(i int) bool { return i >= n.cfg.Validators+n.cfg.ExtraNodes }
+
+func featureVersion(cfg cnCfg) *version.Version {
+	if cfg.Feature261 {
+		return &version.Version{Major: 26, Minor: 1}
+	}
+	return nil
 }
 
 func btoi(b bool) int {
@@ -373,6 +399,7 @@ func (n *cnNet) buildGenesis() error {
 				MaxEvidenceSize:          1024 * 1024,
 				MaxTxSize:                32768,
 				GasCosts:                 transaction.Costs{consensusGenesis.GasOpTxByte: 1},
+				FeatureVersion:           featureVersion(cfg),
 			},
 		},
 		Staking: stk,
@@ -388,6 +415,9 @@ func (n *cnNet) buildGenesis() error {
 		doc.Registry.Entities = append(doc.Registry.Entities, se)
 	}
 	for i, v := range n.vals {
+		if n.computeOnly(i) {
+			continue
+		}
 		nd, err := n.nodeDescriptor(i, 3, nil)
 		if err != nil {
 			return err
@@ -434,6 +464,9 @@ func (n *cnNet) nodeDescriptor(i int, expiration uint64, mod func(*node.Node)) (
 		},
 		VRF:   node.VRFInfo{ID: v.rot["vrf"].Public()},
 		Roles: node.RoleValidator,
+	}
+	if n.computeOnly(i) {
+		nd.Roles = 0
 	}
 	if mod != nil {
 		mod(nd)
